@@ -74,6 +74,13 @@ impl BetTable {
         compressed_size: u64,
         key: u32,
     ) -> Result<Self> {
+        // The table cannot be larger than what is left of the file
+        let file_end = reader.seek(SeekFrom::End(0))?;
+        if compressed_size > file_end.saturating_sub(offset) {
+            return Err(Error::invalid_format(
+                "Table size exceeds the remaining file",
+            ));
+        }
         reader.seek(SeekFrom::Start(offset))?;
 
         // Read the compressed/encrypted data
@@ -181,6 +188,22 @@ impl BetTable {
         // Parse the rest of the table - data starts after extended header + BET header
         let data_start = 12 + std::mem::size_of::<BetHeader>();
         let mut cursor = std::io::Cursor::new(&table_data[data_start..]);
+
+        // The counts of the header must fit into the table data: they size the buffers below
+        let available = (table_data.len() - data_start) as u64;
+        let flags_bytes = header.flag_count as u64 * 4;
+        let file_table_bytes =
+            (header.file_count as u64 * header.table_entry_size as u64).div_ceil(8);
+        let hashes_bytes = (header.bet_hash_array_size / 8) as u64 * 8;
+        if flags_bytes
+            .saturating_add(file_table_bytes)
+            .saturating_add(hashes_bytes)
+            > available
+        {
+            return Err(Error::invalid_format(
+                "BET header describes more data than the table holds",
+            ));
+        }
 
         // Read file flags
         let mut file_flags = Vec::with_capacity(header.flag_count as usize);
